@@ -23,7 +23,7 @@ def fmtStatus : Status → String
   | .served => "served"
 
 def stepC36 : List String → String
-  | ["http", _srv, _remote, parsed, wl, user, pass, auth, method, _ctype, media] =>
+  | "http" :: _srv :: _remote :: parsed :: wl :: user :: pass :: auth :: method :: _ctype :: media :: _ =>
       match parsed? parsed, bytesList? wl, bytes? user, bytes? pass, bytesList? auth, bytes? media with
       | some ip, some wl, some user, some pass, some auth, some media =>
           -- the digest is instantiated with the identity (SHA-256 is only compared for equality)
